@@ -80,6 +80,12 @@ def generated_items(seed, tier, bias, scale=1.0):
             for _ in range(rng.randint(2, 6)):
                 e = f"({e} {rng.choice(gen.BINOPS)} {rng.choice([r, r, 'RtV', '3'])})"
             items.append(dict(name=f"reuse{i}", text=f"{{ int32_t q = {r}; RddV = {e} + q + q; if ({r} > q) {{ ReV = q + {r}; }} }}"))
+    if bias != "sorts":
+        # chained assignments: every link is an effect that has to be declared before the sequence that uses it
+        for name, text in _sample(rng, gen.chained_assignments(random.Random(seed + 5), False), 24 if tier == "quick" else 120):
+            items.append(dict(name="chain:" + name, text=text))
+        for k, text in enumerate(["{ RddV = ReV = RsV; }", "{ int64_t a; int32_t b; a = b = RsV; RddV = a; }", "{ int32_t p0; int32_t p1; p0 = p1 = 0; RdV = p0 + p1; }", "{ if (RsV) { ReV = RxV = RtV; } }"]):
+            items.append(dict(name=f"chainreg{k}", text=text))
     if bias == "sorts":
         # a name declared twice with different types (listed finding flat_local_namespace) and, as controls, with the same type
         for k, text in enumerate(["{ { int8_t t = RsV; RdV = t; } { uint32_t t = RtV; ReV = t >> 4; } }",
